@@ -42,7 +42,8 @@ CREATE_GUARDS = [
     ("amp!=0", [PredFalse("amp!=0", eq_test(r"^msg\.CreatePool\.pool_type\.StableSwap\.amp$", r"^Const\(0_u64\)$"))], (ASSUME_SS,)),
     ("count<=MAX", [PredTrue("len(denoms)<=MAX", rel(DEN, "<=", r"^Const\(4_usize\)$"))], ()),
     ("fees valid", [TryOk(r"mantra_dex_std::fee::.*::is_valid$")], ()),
-    ("identifier unused", [PredFalse("pool exists", lambda pn, pa: pn == "is_ok" and origin_match(pa[0], r"^Store\(POOLS\)"))], ()),
+    ("identifier unused", [PredFalse("pool exists", lambda pn, pa: pn == "is_ok" and origin_match(pa[0], r"^Store\(POOLS\)")),
+                           VariantEdge("pool lookup fails", r"^Store\(POOLS\)", ["Err", "None"])], ()),     # is_ok() / is_err() / matches!(.., Ok(_)) / match
     ("lp denom is factory token", [CallTrue(r"mantra_dex_std::coin::is_factory_token$")], ()),
 ]
 
